@@ -1,4 +1,3 @@
 #!/bin/bash
-# usage: r5verify.sh C01 C02 ...   — confirm m6 (full suite) and b5 (light) for the given properties, 4 at a time
 mkdir -p /tmp/ev5
-printf '%s\n' "$@" | xargs -P 4 -I{} sh -c 'python3 /verif/tools/seedverify5.py {} m6 > /tmp/ev5/{}-m6.log 2>&1; python3 /verif/tools/seedverify5.py {} b5 > /tmp/ev5/{}-b5.log 2>&1'
+printf '%s\n' "$@" | xargs -P 8 -I{} sh -c 'python3 /verif/tools/seedverify5.py {} m6 > /tmp/ev5/{}-m6.log 2>&1; python3 /verif/tools/seedverify5.py {} b5 > /tmp/ev5/{}-b5.log 2>&1'
